@@ -347,7 +347,7 @@ class Renderer:
             return "{% import " + jlit(fn) + " as " + a + " with context %}", a + ".v"
         if k == "selfblock":
             b = self.fresh("b")
-            return "{% block " + b + " %}" + self.block_body(self.stmts(e[2])) + "{% endblock %}", f"self.{b}()"
+            return "{% block " + b + " %}" + self.block_body(self.stmts(e[2])) + "{% endblock %}:", f"self.{b}()"
         if k == "joiner":
             v = self.fresh("j")
             p, s = self.expr(e[2], hole)
